@@ -3198,8 +3198,9 @@ func importerFailuresAreNotTakenForAbsence(c *core.Ctx) {
 		walk(f, 0)
 		return found
 	}
+	bodies := importBodies(p)
 	for _, fn := range repoFns(p, "importer") {
-		if fn.Name() != "Import" || fn.Signature.Recv() == nil {
+		if !bodies[fn] {
 			continue
 		}
 		k := 0
@@ -3218,8 +3219,8 @@ func importerFailuresAreNotTakenForAbsence(c *core.Ctx) {
 					continue
 				}
 				cal := call.Call.StaticCallee()
-				if cal == nil || !frontEnd(cal) {
-					continue
+				if cal == nil || !frontEnd(cal) || bodies[cal] {
+					continue // (the errors of another import body are judged in that body)
 				}
 				n++
 				k++
